@@ -28,10 +28,10 @@ theorem re_anyOctalV3_eq : Gen.C11.re_rxAnyOctalYaml11V3 = Yaml.srcAnyOctal := b
 -- pins: internal/encoding/yaml/goccy/encode.go
 theorem pin_needsSingleQuoting : Gen.C11.pin_goccy_needsSingleQuoting = "76bef2f953dc4c07" := by decide
 theorem pin_singleQuoted : Gen.C11.pin_goccy_singleQuoted = "36f3c35fcec0a174" := by decide
-theorem pin_quoteScalar : Gen.C11.pin_goccy_quoteScalar = "f3ae0a858051b34b" := by decide
+theorem pin_quoteScalar : Gen.C11.pin_goccy_quoteScalar = "f62b90089e8c0e73" := by decide
 theorem pin_encodeScalar : Gen.C11.pin_goccy_encodeScalar = "3837b5b0de11071f" := by decide
 theorem pin_shouldQuote : Gen.C11.pin_goccy_shouldQuote = "f71cde17e0008591" := by decide
-theorem pin_yamlUnprintable : Gen.C11.pin_goccy_yamlUnprintable = "e3da3c1988606326" := by decide
+theorem pin_yamlUnprintable : Gen.C11.pin_goccy_yamlUnprintable = "6aa7601e4d0338fe" := by decide
 theorem pin_blockLiteralSafe : Gen.C11.pin_goccy_blockLiteralSafe = "601759ffe29bd699" := by decide
 theorem pin_decodesAsNonString : Gen.C11.pin_goccy_decodesAsNonString = "fce33d44bc451f0c" := by decide
 theorem pin_isNumberTokenType : Gen.C11.pin_goccy_isNumberTokenType = "1f4ccb8487617f00" := by decide
